@@ -4,16 +4,18 @@ import Driver.Common
 /-! Driver for the `ExitRace` model (C06).
 
 ops (written by `harness/hcore/src/bin/exitrace.rs`):
-  `case <cause> <n>`      → `ok <fields> at=<exiter point>`        cause = stop|kill|drain|panic
+  `case <cause> <n> <d>`  → `ok <fields> at=<exiter point>`        cause = stop|kill|drain|panic|stoppanic
+  `step d<i> drain.status`→ `<fields> at=done`
+  `succ`                  → `<fields> at=ok|refused`
   `step e <point>`        → `<fields> at=<next|done>`
   `step w<i> <point>`     → `<fields> at=<next|done>[ ret]`
   `abandon <i>`           → `<fields> at=done`
   `end <cause> <n> <sig>` → `<fields> waiters=<r|a|p,…>`
-fields = `st= name= pid= pg= mon= kids= link= sup= post=`
+fields = `st= name= succ= pid= pg= mon= kids= link= sup= post=`
 
 One `step` line = one `ExitRace.step`. The oracle clauses judge the implementation's observations
 only: `premature-return`, `lost-wakeup`, `status-backwards`, `cleanup-twice`, `timeout-effect`,
-`not-stopped-at-end`.
+`not-stopped-at-end`, `successor-lost-name`.
 -/
 
 namespace Driver.ExitRace
@@ -21,9 +23,9 @@ open _root_.ExitRace Driver
 
 def b01 (b : Bool) : String := if b then "1" else "0"
 
-def showFields (g : G) : String :=
+def showFields (g : G) (unsup : Bool := false) : String :=
   let f := g.sh.flags
-  s!"st={g.sh.status} name={b01 !f.unregName} pid={b01 !f.unregPid} pg={b01 !f.pgLeft} mon={b01 !f.pgDemon} kids={if f.terminated then 0 else 1} link={b01 !f.unlinked} sup={if f.supNotified then 2 else 1} post={b01 f.postStop}"
+  s!"st={g.sh.status} name={b01 (g.sh.name == .self)} succ={b01 (g.sh.name == .succ)} pid={b01 !f.unregPid} pg={b01 !f.pgLeft} mon={b01 !f.pgDemon} kids={if f.terminated then 0 else 1} link={b01 !f.unlinked} sup={if unsup then 0 else if f.supNotified then 2 else 1} post={b01 f.postStop}"
 
 def exiterAt (g : G) : String := g.exiter.pc.point
 
@@ -38,6 +40,7 @@ structure Case where
   lastSt : Nat := 0
   unregRuns : Nat := 0
   notifyRuns : Nat := 0
+  succSeen : Bool := false  -- the successor has held the name
   raced : Bool := false     -- a waiter acted before the exiter had finished
   deriving Inhabited
 
@@ -51,7 +54,7 @@ def kv (ws : List String) (k : String) : Option String :=
   ws.findSome? (fun w => if w.startsWith (k ++ "=") then some (w.drop (k.length + 1)).toString else none)
 
 def fieldsOf (ws : List String) : List String :=
-  ws.filter (fun w => ["st=", "name=", "pid=", "pg=", "mon=", "kids=", "link=", "sup=", "post="].any (w.startsWith ·))
+  ws.filter (fun w => ["st=", "name=", "succ=", "pid=", "pg=", "mon=", "kids=", "link=", "sup=", "post="].any (w.startsWith ·))
 
 /-- a waiter returned on this line: the snapshot it sees must be that of a fully stopped actor —
 `ExitRace.snapshotOk` (the predicate of `C06.waiter_returns_only_after_full_stop`) on the
@@ -61,34 +64,59 @@ def returnOk (cause : String) (ws : List String) : Bool :=
   let flags : Flags :=
     { unregPid := is0 "pid", unregName := is0 "name", pgDemon := is0 "mon", pgLeft := is0 "pg",
       postStop := kv ws "post" == some "1", terminated := is0 "kids",
-      supNotified := ((kv ws "sup").bind (·.toNat?)).getD 0 ≥ 2, unlinked := is0 "link" }
-  snapshotOk (((kv ws "st").bind (·.toNat?)).getD 0) flags (cause == "stop" || cause == "drain")
+      -- an unsupervised actor (cause `stoppanic`) has nobody to notify
+      supNotified := cause == "stoppanic" || ((kv ws "sup").bind (·.toNat?)).getD 0 ≥ 2, unlinked := is0 "link" }
+  snapshotOk (((kv ws "st").bind (·.toNat?)).getD 0) flags (cause == "stop" || cause == "drain" || cause == "stoppanic")
 
 def track (c : Case) (iw : List String) : Case × List String :=
   let st := ((kv iw "st").bind (·.toNat?)).getD 0
-  let orc := if st < c.lastSt then ["status-backwards"] else []
-  ({ c with lastFields := fieldsOf iw, lastSt := st }, orc)
+  let succ := kv iw "succ" == some "1"
+  let orc := (if st < c.lastSt then ["status-backwards"] else []) ++
+    (if c.succSeen && !succ then ["successor-lost-name"] else [])
+  -- (reported once per loss)
+  ({ c with lastFields := fieldsOf iw, lastSt := st, succSeen := succ }, orc)
 
 def step1 (st : St) (op impl : String) : St × StepOut :=
   let iw := words impl
   match words op with
-  | ["case", cause, n] =>
-    let post := cause == "stop" || cause == "drain"
-    let g0 := init post [] [] (n.toNat?.getD 0)
+  | "case" :: cause :: n :: rest =>
+    let post := cause == "stop" || cause == "drain" || cause == "stoppanic"
+    let nd := match rest with | [d] => d.toNat?.getD 0 | _ => 0
+    let g0 := init post [] [] (n.toNat?.getD 0) nd
     -- a kill signal makes the actor terminate its children before the exit sequence starts
     let g := if cause == "kill" then { g0 with sh := { g0.sh with flags := { g0.sh.flags with terminated := true } } }
       -- `drain()` has already published `Draining`
-      else if cause == "drain" then { g0 with sh := { g0.sh with status := 4 } } else g0
+      else if cause == "drain" then { g0 with sh := { g0.sh with status := 4 } }
+      -- unsupervised: never linked, nobody to notify (shown as `link=0 sup=0`)
+      else if cause == "stoppanic" then { g0 with sh := { g0.sh with flags := { g0.sh.flags with unlinked := true } } }
+      else g0
     let (c, _) := track { cause := cause } iw
-    ({ g := g, c := c, diverged := false }, { model := s!"ok {showFields g} at={exiterAt g}" })
+    ({ g := g, c := c, diverged := false }, { model := s!"ok {showFields g (cause == "stoppanic")} at={exiterAt g}" })
   | ["step", "e", point] =>
     let pre := exiterAt st.g
-    let g' := _root_.ExitRace.step st.g .e
-    let model := (if pre == point then "" else s!"model-at={pre} ") ++ s!"{showFields g'} at={exiterAt g'}"
+    -- cause `stoppanic`: the state's destructor panics inside `notify_supervisor`, i.e. the
+    -- statement at `cleanup.notify` panics (once) and the guard's `Drop` re-runs `cleanup`
+    let panics := st.c.cause == "stoppanic" && point == "cleanup.notify" && !st.g.exiter.unwound
+    let g' := _root_.ExitRace.step st.g (if panics then .unwind else .e)
+    let model := (if pre == point then "" else s!"model-at={pre} ") ++ s!"{showFields g' (st.c.cause == "stoppanic")} at={exiterAt g'}"
     let (c, orc) := track st.c iw
     let c := { c with unregRuns := c.unregRuns + (if point == "status.unreg_pid" then 1 else 0),
                       notifyRuns := c.notifyRuns + (if point == "notify.waiters" then 1 else 0) }
     ({ st with g := g', c := c }, { model := model, oracle := orc })
+  | ["succ"] =>
+    let g' := _root_.ExitRace.step st.g .succ
+    let ok := st.g.sh.name == .none
+    let model := s!"{showFields g' (st.c.cause == "stoppanic")} at={if ok then "ok" else "refused"}"
+    let (c, orc) := track st.c iw
+    ({ st with g := g', c := { c with raced := true } }, { model := model, oracle := orc })
+  | ["step", w, "drain.status"] =>
+    match (w.drop 1).toString.toNat? with
+    | none => (st, { model := "bad-op" })
+    | some i =>
+      let g' := _root_.ExitRace.step st.g (.d i)
+      let model := s!"{showFields g' (st.c.cause == "stoppanic")} at=done"
+      let (c, orc) := track st.c iw
+      ({ st with g := g', c := { c with raced := true } }, { model := model, oracle := orc })
   | ["step", w, point] =>
     match (w.drop 1).toString.toNat? with
     | none => (st, { model := "bad-op" })
@@ -99,7 +127,7 @@ def step1 (st : St) (op impl : String) : St × StepOut :=
         | some ⟨.returned _, _⟩ => true
         | _ => false
       let model := (if pre == point then "" else s!"model-at={pre} ") ++
-        s!"{showFields g'} at={waiterAt g' i}{if returned then " ret" else ""}"
+        s!"{showFields g' (st.c.cause == "stoppanic")} at={waiterAt g' i}{if returned then " ret" else ""}"
       let (c, orc) := track st.c iw
       let orc := orc ++ (if iw.contains "ret" && !returnOk c.cause iw then ["premature-return"] else [])
       let c := { c with raced := c.raced || !st.g.exiter.finished }
@@ -109,7 +137,7 @@ def step1 (st : St) (op impl : String) : St × StepOut :=
     | none => (st, { model := "bad-op" })
     | some i =>
       let g' := _root_.ExitRace.step st.g (.abandon i)
-      let model := s!"{showFields g'} at={waiterAt g' i}"
+      let model := s!"{showFields g' (st.c.cause == "stoppanic")} at={waiterAt g' i}"
       let before := st.c.lastFields
       let (c, orc) := track st.c iw
       let orc := orc ++ (if fieldsOf iw == before then [] else ["timeout-effect"])
@@ -118,7 +146,7 @@ def step1 (st : St) (op impl : String) : St × StepOut :=
     let g := st.g
     let ws := g.waiters.map (fun w => match w.pc with
       | .returned _ => "r" | .abandoned => "a" | _ => "p")
-    let model := s!"{showFields g} waiters={if ws.isEmpty then "-" else ",".intercalate ws}"
+    let model := s!"{showFields g (st.c.cause == "stoppanic")} waiters={if ws.isEmpty then "-" else ",".intercalate ws}"
     let (c, orc) := track st.c iw
     let implWs := ((kv iw "waiters").getD "-").splitOn ","
     let orc := orc ++
